@@ -87,10 +87,28 @@ def extract(repo):
     return files
 
 
+# the supported SI tables as the property's anchors list them (reference copy, used only when the tables of the tree
+# under check are no longer written as plain alternations - then the translator has reported the broken tie, and the
+# generators / oracle still have to ask about every table entry to find the failing input)
+REF_PREFIXES = ["Y", "Z", "E", "P", "T", "G", "M", "k", "h", "da", "d", "c", "m", "u", "n", "p", "f", "a", "z", "y"]
+REF_UNITS = ["m", "g", "s", "A", "K", "mol", "cd", "Hz", "N", "Pa", "J", "W", "C", "V", "F", "S", "Wb", "T", "H", "lm",
+             "lx", "Bq", "Gy", "Sv", "kat", "l", "L", "Ohm", "%", "dB", "rad"]
+
+
+def _alternation(text, ref):
+    """the entries of "(a|b|c)"; the reference list when the text is not a plain alternation of literal entries"""
+    import re as _re
+    if isinstance(text, str) and _re.fullmatch(r"\((?:[^()|\[\]\\*+?{}^$.]+\|)*[^()|\[\]\\*+?{}^$.]+\)", text):
+        return text[1:-1].split("|")
+    return list(ref)
+
+
 def _tables():
     from nixio.util import units as U
-    pre = U.PREFIXES.strip("()").split("|")
-    un = U.UNITS.strip("()").split("|")
+    pre = _alternation(getattr(U, "PREFIXES", None), REF_PREFIXES)
+    if any(p not in SI_EXP for p in pre):
+        pre = list(REF_PREFIXES)
+    un = _alternation(getattr(U, "UNITS", None), REF_UNITS)
     return U, pre, un
 
 
